@@ -33,8 +33,9 @@ def main():
     ap.add_argument("--tier", default="quick")
     ap.add_argument("--confirm", action="store_true")
     ap.add_argument("--seed", default="0")
+    ap.add_argument("--dir", default="seeded", help="seeded (defects, expected: detected) | harmless (rewrites, expected: no alarm)")
     a = ap.parse_args()
-    ids = a.ids or sorted(p.name for p in (V / "seeded").iterdir() if (p / "patch.diff").exists())
+    ids = a.ids or sorted(p.name for p in (V / a.dir).iterdir() if (p / "patch.diff").exists())
     sh(f"rsync -a --delete --exclude .git --exclude replays {V}/ {COPY}/")
     (COPY / "replays").mkdir(exist_ok=True)
     sh(f"git -C /repo worktree remove --force {WT}")
@@ -46,7 +47,7 @@ def main():
     summary = []
     try:
         for sid in ids:
-            d = V / "seeded" / sid
+            d = V / a.dir / sid
             meta = json.loads((d / "meta.json").read_text())
             prop = meta["property"]
             res = dict(id=sid, property=prop, tier=a.tier, seed=a.seed)
@@ -91,7 +92,11 @@ def main():
     finally:
         sh(f"git -C /repo worktree remove --force {WT}")
     missed = [s["id"] for s in summary if not s.get("detected")]
-    print(f"\n{len(summary) - len(missed)}/{len(summary)} detected; missed: {missed}")
+    if a.dir == "harmless":
+        alarms = [s["id"] for s in summary if s.get("check_rc") != 0]
+        print(f"\n{len(summary) - len(alarms)}/{len(summary)} harmless rewrites pass without alarm; alarms: {alarms}")
+    else:
+        print(f"\n{len(summary) - len(missed)}/{len(summary)} detected; missed: {missed}")
 
 
 if __name__ == "__main__":
